@@ -1,4 +1,5 @@
 import Andes.Proofs.Expr
+import Mathlib.Tactic.CasesM
 import Mathlib.Analysis.SpecialFunctions.Trigonometric.Deriv
 import Mathlib.Analysis.SpecialFunctions.Trigonometric.ArctanDeriv
 import Mathlib.Analysis.SpecialFunctions.ExpDeriv
@@ -9,36 +10,6 @@ import Mathlib.Analysis.Calculus.Deriv.Abs
 /-! Symbolic derivative `D` of `Andes.Expr`, computed inside Lean, and its correctness
 (`hasDerivAt_D`): what makes C03 a theorem instead of a finite-difference test. -/
 namespace Andes.Expr
-
-/-- symbolic partial derivative with respect to variable `i` -/
-def D (i : Nat) : Expr → Expr
-  | num _ => num 0
-  | pi => num 0
-  | nan => num 0
-  | var j => if i = j then num 1 else num 0
-  | add a b => add (D i a) (D i b)
-  | sub a b => sub (D i a) (D i b)
-  | mul a b => add (mul (D i a) b) (mul a (D i b))
-  | div a b => div (sub (mul (D i a) b) (mul a (D i b))) (pow b 2)
-  | neg a => neg (D i a)
-  | pow a n => mul (mul (num n) (pow a (n - 1))) (D i a)
-  | rpow a b => mul (mul b (rpow a (sub b (num 1)))) (D i a)
-  | un .sin a => mul (un .cos a) (D i a)
-  | un .cos a => mul (neg (un .sin a)) (D i a)
-  | un .tan a => div (D i a) (pow (un .cos a) 2)
-  | un .exp a => mul (un .exp a) (D i a)
-  | un .log a => div (D i a) a
-  | un .sqrt a => div (D i a) (mul (num 2) (un .sqrt a))
-  | un .abs a => mul (un .sign a) (D i a)
-  | un .arctan a => div (D i a) (add (num 1) (pow a 2))
-  | un .sign _ => num 0
-  | atan2 _ _ => num 0
-  | lt _ _ => num 0
-  | le _ _ => num 0
-  | band _ _ => num 0
-  | bor _ _ => num 0
-  | bnot _ => num 0
-  | ite c a b => ite c (D i a) (D i b)
 
 /-- well-definedness of `e` for differentiation with respect to variable `i` at `ρ`: denominators
 non-zero, arguments of `sqrt`/`log`/`abs`/`sign`/`tan` away from their singular points, and the
@@ -246,6 +217,8 @@ macro "andes_deriv" : tactic =>
               | (field_simp; ring1)
               | (norm_num; andes_trig; ring1)
               | (split_ifs <;> first | ring1 | (norm_num; done) | (norm_num; ring1) | (field_simp; ring1) | (simp_all; done) | (exfalso; simp_all; done))
+              | ((try simp only [true_and, and_true, and_self, ne_eq, pow_eq_zero_iff, OfNat.ofNat_ne_zero, not_false_eq_true] at *); (try casesm* _ ∧ _); field_simp; ring1)
+              | ((try simp only [true_and, and_true, and_self, ne_eq, pow_eq_zero_iff, OfNat.ofNat_ne_zero, not_false_eq_true] at *); (try casesm* _ ∧ _); andes_trig; field_simp; ring1)
               | (simp; done)
               | (simp; ring1)
               | (norm_num; field_simp; ring1)
